@@ -410,25 +410,33 @@ impl Registrations {
         }
 
         let peer = new_registration.record.peer_id();
+        let namespace = new_registration.namespace;
+        let key = (peer, namespace.clone());
 
-        if self
-            .registrations_for_peer
-            .left_values()
-            .filter(|(p, _)| p == &peer)
-            .count()
-            >= self.config.max_registrations_per_peer
-            || self.registrations_for_peer.len() > self.config.max_registrations_total
+        // Registering an existing `(peer, namespace)` again is a refresh: it replaces the old
+        // registration, hence it does not count towards the limits.
+        let is_refresh = self.registrations_for_peer.contains_left(&key);
+
+        if !is_refresh
+            && (self
+                .registrations_for_peer
+                .left_values()
+                .filter(|(p, _)| p == &peer)
+                .count()
+                >= self.config.max_registrations_per_peer
+                || self.registrations_for_peer.len() >= self.config.max_registrations_total)
         {
             return Err(ErrorCode::Unavailable);
         }
 
-        let namespace = new_registration.namespace;
+        // Drop the superseded registration, if any.
+        if let Some((_, superseded)) = self.registrations_for_peer.remove_by_left(&key) {
+            self.registrations.remove(&superseded);
+        }
+
         let registration_id = RegistrationId::new();
 
-        self.registrations_for_peer.insert(
-            (new_registration.record.peer_id(), namespace.clone()),
-            registration_id,
-        );
+        self.registrations_for_peer.insert(key, registration_id);
 
         let registration = Registration {
             namespace,
